@@ -195,6 +195,7 @@ func (s *SubscriptionManager[C, T]) Disconnect(clientID C) bool {
 // Subscribe subscribes the client to the topic.
 // Returns true if the client successfully subscribed to the topic.
 func (s *SubscriptionManager[C, T]) Subscribe(clientID C, topic T) bool {
+	clientConnected := false
 	clientDropped := false
 	var removedTopics, unsubscribedTopics []T
 	topicAdded := false
@@ -209,6 +210,7 @@ func (s *SubscriptionManager[C, T]) Subscribe(clientID C, topic T) bool {
 		if !has {
 			return
 		}
+		clientConnected = true
 
 		count, has := subscribedTopics.Get(topic)
 		if has {
@@ -243,6 +245,11 @@ func (s *SubscriptionManager[C, T]) Subscribe(clientID C, topic T) bool {
 			topicAdded = true
 		}
 	}()
+
+	if !clientConnected {
+		// nothing was subscribed: do not fire the subscribed events
+		return false
+	}
 
 	if clientDropped {
 		for _, topic := range removedTopics {
